@@ -20,7 +20,7 @@ def print(*a):
     _print(*a, file=out)
 
 
-for wave in (3, 4, 5, 6, 7, 8, 9):
+for wave in (3, 4, 5, 6, 7, 8, 9, 10):
     rows = []
     for d in sorted(glob.glob('/verif/seeded/C*-*')):
         if not os.path.exists(os.path.join(d, 'meta.json')):
